@@ -64,15 +64,27 @@ pub fn needs_isolation(s: &Subject, bytes: &[u8]) -> bool {
     }
 }
 
-/// A legitimate claimed count above 2^22 of elements that encode to nothing: decoding takes
-/// time proportional to the count (seconds near 2^32) although nothing is wrong; such cases are
-/// thinned by the generators.
+/// A legitimate claimed count above 2^20 of elements that encode to nothing: decoding takes
+/// time proportional to the count (seconds to minutes near 2^32, because every element still
+/// costs calls through the simulated input) although nothing is wrong; such cases are thinned
+/// by the generators (wire structure: counts of sets / maps included).
 pub fn slow_by_count(s: &Subject, bytes: &[u8]) -> bool {
     if !s.empty_elem {
         return false;
     }
-    match ref_decode(&s.schema, bytes) {
-        Ok((v, _)) => rep_over(&v, 1 << 22),
+    match crate::model::ref_decode_raw(&s.schema, bytes) {
+        Ok((v, _)) => rep_over(&v, 1 << 20),
+        Err(_) => false,
+    }
+}
+
+/// Counts above 2^26 of zero-byte elements are never executed in the mass runs.
+pub fn too_slow_by_count(s: &Subject, bytes: &[u8]) -> bool {
+    if !s.empty_elem {
+        return false;
+    }
+    match crate::model::ref_decode_raw(&s.schema, bytes) {
+        Ok((v, _)) => rep_over(&v, 1 << 26),
         Err(_) => false,
     }
 }
@@ -108,6 +120,9 @@ impl Scenario for Corrupt {
             // allocation cap): keep one in 200 of them.
             if s.empty_elem {
                 let b = plan_bytes(&p);
+                if too_slow_by_count(s, &b) && !needs_isolation(s, &b) {
+                    continue;
+                }
                 if (needs_isolation(s, &b) || slow_by_count(s, &b)) && !rng.chance(1, 200) {
                     continue;
                 }
@@ -222,6 +237,99 @@ impl Scenario for CorruptSweep {
         st.note(salt(&[s.name, "sweep", &first.to_string()]), &t, true);
         *st.exhaustive_parts.entry("strings_len_le_2_x_all_subjects".to_string()).or_insert(0) += n;
         st.sample(|| json!({"subject": s.name, "first_byte": first, "strings": n}));
+        Ok(())
+    }
+}
+
+// ------------------------------------------------------------------------------------------
+// Bit-length cap against a source that never runs dry (the cap is the only thing that can stop a
+// hostile bit count when the payload really is there / the reader is endless).
+
+struct Endless {
+    prefix: Vec<u8>,
+    pos: usize,
+    delivered: u64,
+}
+
+impl parity_scale_codec::Input for Endless {
+    fn remaining_len(&mut self) -> Result<Option<usize>, parity_scale_codec::Error> {
+        Ok(None)
+    }
+    fn read(&mut self, into: &mut [u8]) -> Result<(), parity_scale_codec::Error> {
+        for b in into.iter_mut() {
+            *b = if self.pos < self.prefix.len() { self.prefix[self.pos] } else { 0x5a };
+            self.pos += 1;
+        }
+        self.delivered += into.len() as u64;
+        Ok(())
+    }
+}
+
+pub struct BitLimit;
+
+fn bits_len<T: parity_scale_codec::Decode>(prefix: &[u8], len_of: fn(&T) -> usize) -> (Result<usize, String>, u64) {
+    let mut e = Endless { prefix: prefix.to_vec(), pos: 0, delivered: 0 };
+    let r = T::decode(&mut e);
+    (r.map(|v| len_of(&v)).map_err(|e| e.to_string().chars().take(100).collect()), e.delivered)
+}
+
+impl Scenario for BitLimit {
+    fn name(&self) -> &'static str {
+        "bitlimit"
+    }
+    fn property(&self) -> &'static str {
+        "C03"
+    }
+    fn level(&self) -> &'static str {
+        "exploration"
+    }
+    fn rule(&self) -> &'static str {
+        "additionally: bit sequences (5 store/order combinations, BitBox, nested in a tuple) decoded from an endless unknown-length source with bit counts 2^29-2, 2^29-1 (largest legal: must succeed with exactly that many bits), 2^29, 2^29+1, 2^30, 2^32-1 (must be rejected before the payload is read)"
+    }
+    fn cases(&self, _tier: Tier) -> u64 {
+        cap(7 * 6)
+    }
+    fn gen(&self, _seed: u64, idx: u64, _tier: Tier) -> Plan {
+        let kinds = ["BitVec<u8, Lsb0>", "BitVec<u8, Msb0>", "BitVec<u16, Lsb0>", "BitVec<u32, Msb0>", "BitVec<u64, Lsb0>", "BitBox<u8, Msb0>", "(u8, BitVec<u16, Lsb0>)"];
+        let counts: [i64; 6] = [(1 << 29) - 2, (1 << 29) - 1, 1 << 29, (1 << 29) + 1, 1 << 30, u32::MAX as i64];
+        let mut p = Plan::new("bitlimit", kinds[(idx as usize / 6) % 7]);
+        p.set("fix_bits", counts[idx as usize % 6]);
+        p
+    }
+    fn run(&self, plan: &Plan, st: &mut Stats) -> Verdict {
+        use bitvec::prelude::*;
+        let bits = plan.param("fix_bits") as u64;
+        let mut prefix = Vec::new();
+        if plan.subject.starts_with('(') {
+            prefix.push(7);
+        }
+        crate::model::compact_bytes(bits as u128, &mut prefix);
+        let (r, delivered) = match plan.subject.as_str() {
+            "BitVec<u8, Lsb0>" => bits_len::<BitVec<u8, Lsb0>>(&prefix, |v| v.len()),
+            "BitVec<u8, Msb0>" => bits_len::<BitVec<u8, Msb0>>(&prefix, |v| v.len()),
+            "BitVec<u16, Lsb0>" => bits_len::<BitVec<u16, Lsb0>>(&prefix, |v| v.len()),
+            "BitVec<u32, Msb0>" => bits_len::<BitVec<u32, Msb0>>(&prefix, |v| v.len()),
+            "BitVec<u64, Lsb0>" => bits_len::<BitVec<u64, Lsb0>>(&prefix, |v| v.len()),
+            "BitBox<u8, Msb0>" => bits_len::<BitBox<u8, Msb0>>(&prefix, |v| v.len()),
+            _ => bits_len::<(u8, BitVec<u16, Lsb0>)>(&prefix, |v| v.1.len()),
+        };
+        let mut t = crate::seams::Trace::new();
+        t.events = 2;
+        t.fire("unknown_len");
+        st.note(salt(&[&plan.subject, &bits.to_string(), if r.is_ok() { "ok" } else { "err" }]), &t, true);
+        let legal = bits <= (1 << 29) - 1;
+        match (&r, legal) {
+            (Ok(n), true) if *n as u64 == bits => {},
+            (Ok(n), true) => return viol("c03.value_mismatch", format!("{}: bit count {} decoded to a sequence of {} bits", plan.subject, bits, n)),
+            (Err(e), true) => return viol("c03.rejected_valid", format!("{}: a bit sequence of {} bits (<= 2^29-1) with its payload present was rejected: {}", plan.subject, bits, e)),
+            (Ok(n), false) => return viol("c03.accepted_malformed", format!("{}: a bit count of {} (> 2^29-1) was accepted ({} bits decoded, {} bytes read from an endless source)", plan.subject, bits, n, delivered)),
+            (Err(_), false) => {
+                if delivered > 64 {
+                    st.probe("rejected_only_after_reading_payload");
+                }
+            },
+        }
+        st.sample(|| json!({"subject": plan.subject, "bit_count": bits, "outcome": format!("{:?}", r), "bytes_read": delivered}));
         Ok(())
     }
 }
